@@ -421,8 +421,172 @@ fn editor_case() -> BoxedStrategy<EditorCase> {
     .boxed()
 }
 
+
+// ------------------------------------------------------------------------------------------------
+// quick fixes requested while an edit is being processed
+
+/// The client sends an edit and, without waiting for the new diagnostics, code-action requests
+/// (a cursor movement right after typing). Whichever state the server answers from, an answer is
+/// consistent in itself: the lint it carries and the edits it offers belong to one and the same
+/// text - the one before or the one after the edit.
+#[derive(Debug, Clone, Serialize, Deserialize, PartialEq, Eq, Hash)]
+pub struct RaceCase {
+    pub before: String,
+    /// 0 lines put in front, 1 first sentence removed, 2 first blank becomes a line break, 3 other text
+    pub edit: u8,
+    pub other: String,
+}
+
+fn plain_lints(text: &[char]) -> Option<Vec<Lint>> {
+    let fe = Frontend::of("plaintext");
+    let (parser, dict) = fe.build(text)?;
+    let doc = Document::new_from_vec(Lrc::new(text.to_vec()), &parser, &dict);
+    let mut group = LintGroup::new_curated(harper_core::FstDictionary::curated(), Dialect::American);
+    crate::core::catch(|| group.lint(&doc)).ok()
+}
+
+pub fn test_race(c: &RaceCase, ctx: &mut CaseCtx) -> Result<(), String> {
+    let t0: Vec<char> = c.before.chars().collect();
+    let after: String = match c.edit % 4 {
+        0 => format!("A new first line 😀 that is long enough to hold every column of the old text, and then some more of it, and more.\n\nA second one.\n{}", c.before),
+        1 => match c.before.find(". ") {
+            Some(i) => c.before[i + 2..].to_string(),
+            None => c.other.clone(),
+        },
+        2 => c.before.replacen(' ', "\n", 1),
+        _ => c.other.clone(),
+    };
+    let t1: Vec<char> = after.chars().collect();
+    let (Some(l0), Some(l1)) = (plain_lints(&t0), plain_lints(&t1)) else {
+        ctx.class("skipped_c01_panic");
+        return Ok(());
+    };
+    // probe where either text has a lint
+    let mut probes: Vec<(Pos, Pos)> = vec![];
+    for (t, ls) in [(&t0, &l0), (&t1, &l1)] {
+        for l in ls.iter().take(4) {
+            probes.push((index_to_pos(t, l.span.start), index_to_pos(t, l.span.end)));
+        }
+    }
+    // A client only sends positions of its own buffer, which is the text after the edit. The
+    // server may still answer from the text before it (handlers run concurrently), and there a
+    // position that does not exist makes harper-ls build an inverted span and drop the request
+    // (see DESIGN.md, section 9.3): keep the positions that exist in both texts (not past a line
+    // end, not inside a surrogate pair).
+    let valid_in = |t: &Vec<char>, p: &Pos| {
+        let i = crate::oracle::lsp_pos::pos_to_index(t, *p);
+        let q = index_to_pos(t, i);
+        (q.line, q.col) == (p.line, p.col)
+    };
+    probes.retain(|(a, b)| valid_in(&t0, a) && valid_in(&t0, b) && valid_in(&t1, a) && valid_in(&t1, b));
+    probes.dedup();
+    if probes.is_empty() {
+        ctx.class("no_lint_position_common_to_both_texts");
+        return Ok(());
+    }
+    let res = with_server(|sb, srv, n| {
+        let uri = sb.uri(&format!("race{n}.txt"));
+        srv.open(&uri, "plaintext", &c.before)?;
+        let before_pubs = srv.publications_for(&uri);
+        srv.manual = true;
+        let r = (|| {
+            srv.notify("textDocument/didChange", json!({"textDocument": {"uri": uri, "version": 2}, "contentChanges": [{"text": after}]}))?;
+            srv.pump_until(std::time::Duration::from_secs(60), "configuration request of didChange", |s| !s.pending_config.is_empty())?;
+            // the answer that lets the edit proceed, and the requests, back to back
+            srv.answer_config(0)?;
+            let mut ids = vec![];
+            for (a, b) in &probes {
+                ids.push(srv.request("textDocument/codeAction", json!({"textDocument": {"uri": uri}, "range": {"start": {"line": a.line, "character": a.col}, "end": {"line": b.line, "character": b.col}}, "context": {"diagnostics": []}}))?);
+            }
+            let mut answers = vec![];
+            for id in ids {
+                // further configuration requests (none are expected) must not block the answers
+                let t_end = std::time::Instant::now() + std::time::Duration::from_secs(60);
+                loop {
+                    while !srv.pending_config.is_empty() {
+                        srv.answer_config(0)?;
+                    }
+                    match srv.wait_response(id, std::time::Duration::from_millis(300)) {
+                        Ok(v) => {
+                            answers.push(v);
+                            break;
+                        }
+                        Err(crate::lsp::LspError::Timeout(w)) => {
+                            if std::time::Instant::now() > t_end {
+                                return Err(crate::lsp::LspError::Timeout(w));
+                            }
+                        }
+                        Err(e) => return Err(e),
+                    }
+                }
+            }
+            srv.pump_until(std::time::Duration::from_secs(60), "publication after didChange", |s| s.publications_for(&uri) > before_pubs)?;
+            Ok(answers)
+        })();
+        srv.manual = false;
+        while !srv.pending_config.is_empty() {
+            srv.answer_config(0)?;
+        }
+        let answers = r?;
+        srv.close(&uri)?;
+        Ok((uri, answers))
+    });
+    let (uri, answers) = match res {
+        Ok(v) => v,
+        Err(e) => {
+            if std::env::var("HV_DEBUG_RACE").is_ok() {
+                eprintln!("RACE-INFRA {e:?} case={}", serde_json::to_string(c).unwrap_or_default());
+            }
+            ctx.infra(e);
+            return Ok(());
+        }
+    };
+    ctx.nontrivial(c);
+    let mut from_old = 0;
+    let mut from_new = 0;
+    for (k, ans) in answers.iter().enumerate() {
+        if let Some(err) = ans.get("error") {
+            return Err(format!(
+                "code-action request #{k} sent right after an edit ({:?} -> {:?}) failed: {err}",
+                c.before, after
+            ));
+        }
+        for (lint_json, edits) in parse_actions(&ans["result"], &uri) {
+            let lint: Lint = serde_json::from_value(lint_json.clone()).map_err(|e| format!("code action carries an unparsable lint: {e}"))?;
+            let consistent_with = |t: &Vec<char>, ls: &Vec<Lint>| -> bool {
+                if lint.span.end > t.len() || !ls.contains(&lint) || edits.len() != lint.suggestions.len() {
+                    return false;
+                }
+                lint.suggestions.iter().zip(&edits).all(|(sug, (es, ee, new_text))| {
+                    apply_edit(t, *es, *ee, new_text) == ref_apply(t, lint.span.start, lint.span.end, sug)
+                })
+            };
+            let old = consistent_with(&t0, &l0);
+            let new = consistent_with(&t1, &l1);
+            from_old += old as usize;
+            from_new += (new && !old) as usize;
+            if !old && !new {
+                return Err(format!(
+                    "edit {:?} -> {:?}, code actions requested right behind it at {:?}: the answer carries the lint {:?} at {}..{} with edits {:?}, which is a quick fix neither of the text before nor of the text after the edit",
+                    c.before, after, probes[k], lint.message, lint.span.start, lint.span.end, edits
+                ));
+            }
+        }
+    }
+    ctx.class_if(from_old > 0, "answered_from_the_text_before_the_edit");
+    ctx.class_if(from_new > 0, "answered_from_the_text_after_the_edit");
+    Ok(())
+}
+
+fn race_case() -> BoxedStrategy<RaceCase> {
+    let bad = || g::sel_str(&["See you tomorow.", "Their is an apple on teh table.", "I could of done it teh right way.", "This is an test with an problm.", "We saw the the cat.", "An 1nd time it happend again."]);
+    (proptest::collection::vec(prop_oneof![3 => bad(), 1 => g::sentence()], 1..4), 0u8..4, proptest::collection::vec(prop_oneof![2 => bad(), 1 => g::sentence()], 0..3))
+        .prop_map(|(a, edit, b)| RaceCase { before: sanitize(a.join(" ")), edit, other: sanitize(b.join("\n")) })
+        .boxed()
+}
+
 pub fn run(run: &mut Run) {
-    run.rule = "documents of 1-5 generated lines (G-TEXT sentences, known-bad sentences, astral / combining / tab prefixes) with LF, CRLF and blank-line separators, with and without trailing newline, opened in the real harper-ls under 9 language ids; for every published diagnostic one codeAction request with its own range and one zero-width request at every char position inside it (<=40). Oracle: independent LSP position arithmetic (UTF-16 columns, lines split at \\n): diagnostic range == reference range of the lint carried in the answer, every inside position returns that lint's fixes, each TextEdit applied like a client == Suggestion::apply on the char span == reference splice; for plain/Markdown/HTML/Typst the published set equals the in-process lints. Non-trivial = lint on a later line, astral char before a lint on its line, or lint on the last line without trailing newline.".into();
+    run.rule = "documents of 1-5 generated lines (G-TEXT sentences, known-bad sentences, astral / combining / tab prefixes) with LF, CRLF and blank-line separators, with and without trailing newline, opened in the real harper-ls under 9 language ids; for every published diagnostic one codeAction request with its own range and one zero-width request at every char position inside it (<=40). Oracle: independent LSP position arithmetic (UTF-16 columns, lines split at \\n): diagnostic range == reference range of the lint carried in the answer, every inside position returns that lint's fixes, each TextEdit applied like a client == Suggestion::apply on the char span == reference splice; for plain/Markdown/HTML/Typst the published set equals the in-process lints. code_actions_racing_an_edit: a didChange and, right behind the configuration answer that lets it proceed, code-action requests at the lint positions of the old and the new text: every answer must be a quick fix of the text before or of the text after the edit (lint among that text's lints, edits = reference splice), never a mixture, and no request may fail. Non-trivial = lint on a later line, astral char before a lint on its line, or lint on the last line without trailing newline.".into();
     let n = run.n(1_000, 10_000);
     run.threads = run.threads.min(8);
     run.max_shrink_iters = 80;
@@ -432,9 +596,23 @@ pub fn run(run: &mut Run) {
     run.require_class("editor_round_trip", "lint_on_last_line_without_newline", (n / 20) as u64);
     run.require_class("editor_round_trip", "crlf", (n / 10) as u64);
     run.require_class("editor_round_trip", "leading_byte_order_mark_with_lint_on_first_line", (n / 40) as u64);
+    let n = run.n(200, 4_000);
+    run.prop("code_actions_racing_an_edit", n, race_case, test_race);
+    run.require_class("code_actions_racing_an_edit", "answered_from_the_text_before_the_edit", (n / 20) as u64);
+    run.require_class("code_actions_racing_an_edit", "answered_from_the_text_after_the_edit", (n / 20) as u64);
 }
 
 pub fn replay(_check: &str, case: Value, _run: &mut Run) -> Result<(), String> {
+    if _check == "code_actions_racing_an_edit" {
+        let c: RaceCase = serde_json::from_value(case).map_err(|e| e.to_string())?;
+        let mut ctx = CaseCtx::default();
+        let r = test_race(&c, &mut ctx);
+        shutdown_thread_server();
+        if let Some(i) = ctx.classes.iter().find(|c| c.starts_with("INFRA")) {
+            return Err(format!("infrastructure problem during replay: {i}"));
+        }
+        return r;
+    }
     let c: EditorCase = serde_json::from_value(case).map_err(|e| e.to_string())?;
     let mut ctx = CaseCtx::default();
     let r = test_editor(&c, &mut ctx);
